@@ -199,6 +199,19 @@ def _r2(repo, L):
                 u, v = (e.id for e in lp.target.elts)
                 ok = is_name(jcalls[0].func.value, u) and is_name(jcalls[0].args[0], v)
     L.check(ok, "R2", f.short, "each consecutive pair (prev, this) encoded once, prev := this afterwards", why, f.loc())
+    # no shortcut exit: the only early return is the "no fragment at all" case (StopIteration of the first next())
+    early = []
+    for r in walk_shallow(f.node):
+        if isinstance(r, ast.Return) and r is not f.node.body[-1]:
+            par = r
+            in_stop = False
+            while par is not None and par is not f.node:
+                par = getattr(par, "_parent", None)
+                if isinstance(par, ast.ExceptHandler) and par.type is not None and "StopIteration" in norm(par.type):
+                    in_stop = True
+            if not in_stop:
+                early.append(r)
+    L.check(not early, "R2", f.short + ":no-shortcut", "no early exit other than 'scaffold has no fragment'", f"junction set returns early under '{norm(getattr(early[0], '_parent', early[0]))[:70] if early else ''}': scaffolds taking that exit contribute no junctions (e.g. two abutting contigs without a gap row), so breaking them is not counted and keeping them looks like a join", f.loc(early[0]) if early else f.loc())
     # assembly-level union
     asm = repo.cls("Assembly")
     g = asm.methods.get("fragment_junction_set")
